@@ -11,6 +11,8 @@ T=$(mktemp -d /tmp/semver-cov.XXXXXX)
 trap 'rm -rf "$T"' EXIT
 BIN=/root/.rustup/toolchains/nightly-x86_64-unknown-linux-gnu/lib/rustlib/x86_64-unknown-linux-gnu/bin
 cd "$ROOT/harness"
+# build scripts and proc-macros of the instrumented build write profiles too: keep them out of /repo
+export LLVM_PROFILE_FILE="$T/build-%p-%m.profraw"
 CARGO_NET_OFFLINE=true RUSTFLAGS="-C instrument-coverage" CARGO_TARGET_DIR=$T/target cargo +nightly build --offline --release --quiet 2>/dev/null
 H=$T/target/release/semver-harness
 export LLVM_PROFILE_FILE="$T/prof-%p-%m.profraw"
@@ -31,6 +33,7 @@ for f in "$ROOT"/corpus/*.txt; do $H lines --in "$f" --out $T/c.txt 2>/dev/null 
 $H lines --in $T/npm.q --out $T/npm.lines
 $H deep --out $T/deep.json --tier quick
 $H timing --out $T/timing.json
+rm -f /repo/*.profraw "$ROOT"/harness/*.profraw
 $BIN/llvm-profdata merge -sparse $T/prof-*.profraw -o $T/all.profdata
 mkdir -p "$ROOT/coverage"
 $BIN/llvm-cov report $H -instr-profile=$T/all.profdata /repo/src/lib.rs /repo/src/range.rs > "$ROOT/coverage/summary.txt" 2>/dev/null
